@@ -449,10 +449,16 @@ static Type *declspec(Token **rest, Token *tok, VarAttr *attr) {
         error_tok(tok, "_Alignas is not allowed in this context");
       tok = skip(tok->next, "(");
 
-      if (is_typename(tok))
+      if (is_typename(tok)) {
         attr->align = typename(&tok, tok)->align;
-      else
-        attr->align = const_expr(&tok, tok);
+      } else {
+        // _Alignas(0) has no effect.
+        Token *start = tok;
+        long align = const_expr(&tok, tok);
+        if (align < 0 || align > (1 << 28) || (align & (align - 1)))
+          error_tok(start, "alignment is not a power of 2");
+        attr->align = align;
+      }
       tok = skip(tok, ")");
       continue;
     }
@@ -2731,7 +2737,11 @@ static Token *attribute_list(Token *tok, Type *ty) {
 
       if (consume(&tok, tok, "aligned")) {
         tok = skip(tok, "(");
-        ty->align = const_expr(&tok, tok);
+        Token *start = tok;
+        long align = const_expr(&tok, tok);
+        if (align <= 0 || align > (1 << 28) || (align & (align - 1)))
+          error_tok(start, "alignment is not a positive power of 2");
+        ty->align = align;
         tok = skip(tok, ")");
         continue;
       }
